@@ -47,6 +47,17 @@ def crashed(rc, stderr):
     """the process died (signal, Go panic) rather than ending with an exit status of its own choosing; recognised by what Go prints, not by the status value"""
     return rc < 0 or b'panic:' in stderr or b'goroutine 1 [' in stderr or b'fatal error:' in stderr
 
+def gz_without_lf(data):
+    """a gzip encoding of data whose COMPRESSED bytes hold no 0x0A byte at all (header time stamp and compression level are varied until that
+    is so); None when none is found. The number of line feeds in the stored file says nothing about the number of lines in the log."""
+    for level in (9, 6, 1, 3):
+        for mtime in range(1, 400, 7):
+            buf = io.BytesIO()
+            with gzip.GzipFile(fileobj=buf, mode='wb', mtime=mtime, compresslevel=level) as f: f.write(data)
+            b = buf.getvalue()
+            if b'\n' not in b: return b
+    return None
+
 def gz_bytes(data, members=1):
     if members == 1:
         buf = io.BytesIO()
